@@ -16,8 +16,9 @@ import (
 
 func init() {
 	register(&Scenario{
-		Prop: "C28",
-		Run:  runC28,
+		Prop:      "C28",
+		Run:       runC28,
+		NeedsRace: true,
 		Real: []string{
 			"encoding.Uint64Map.EachItem with its goroutine pool, channels and select",
 			"EachFeature of the basic world (ingest.EachFeature / eachIngestFeature / feedFeatures), of MutableOverlayWorld (overlay then base) and of the compact world (FeaturesByID.EachFeature over Uint64Map.EachItem)",
